@@ -5,6 +5,7 @@ CONSTANTS
   GuardCombine = TRUE
   GuardControl = TRUE
   SafeDecode = FALSE
+  GuardEndpoint = TRUE
   NoSigpipe = TRUE
   MaxHist = 4
 INVARIANTS C35_NoThrow
